@@ -886,6 +886,10 @@ def oracle(case, obs):
                 fails.append(_fail("shell-flag-differs", "shell=%r, configured %r" % (obs["shell"], case["shell"])))
             if obs.get("environ_intact") is False:
                 fails.append(_fail("daemon-environ-modified", "building the watchers changed the daemon's own os.environ"))
+            if obs["env"] is None and case["env"] is not None:
+                # Popen(env=None) is not "an empty environment": the worker inherits the daemon's whole os.environ
+                fails.append(_fail("env-inherited-from-daemon", "an environment is configured (%r) but Popen was given env=None: the "
+                                   "worker inherits the daemon's own environment" % (case["env"],)))
             env = dict(obs["env"] or [])
             conf = case["env"] or {}
             if not case["copy_env"]:
